@@ -236,6 +236,7 @@ func lemmaHpackIntTruncated(n byte, i uint64, cut int) (ok bool) {
 //@   ghost done += 1 after call parseHeaderFieldRepr when $r0 != errNeedMore
 //@   ensures  ghost(done) == 0 ==> d.firstField == old(d.firstField)
 //@   ensures  ghost(done) > 0 ==> !d.firstField
+//@   loop 1 invariant ghost(done) >= 0
 //@   loop 1 invariant ghost(done) == 0 ==> d.firstField == old(d.firstField)
 //@   loop 1 invariant ghost(done) > 0 ==> !d.firstField
 //@   partial pre, nopanic
